@@ -90,14 +90,14 @@ BOUNDS = {
              "0 <= k < 2^32) and two symbolic prior generator states",
     "thorough": "Part A as quick.  Part B with the full operation lists (up to 33 ops per level), more masks (3x3 'L', 2x3 diagonal, "
                 "5x5 frames with 9 / 6 pixels for the mapping / w-tilde formalism, both at k<=2), Visibilities with 3 values, k<=3 on "
-                "the Visibilities level, all 63 masks of 2x3 at k<=1 on the Mask2D level, signal_to_noise_map histories of length 2.  "
+                "the Visibilities level, all 63 masks of 2x3 at k<=1 on the Mask2D level.  "
                 "Triangulation meshes on a 4x4 lattice with the full op list (edge_pixel_list, neighbors, delaunay, voronoi) and k<=3 on the 3x3 Voronoi mesh.  "
                 "Part C also 3x3 images",
 }
 OUTSIDE = [
     "histories longer than the stated k (bounded model checking of the history quantifier, no induction)",
     "Interferometer datasets / transformers / the pylops inversion (pylops is absent); only the factory route for a non-Imaging dataset is constructed",
-    "Imaging.w_tilde with a symbolic noise map or PSF (read only with concrete noise/PSF on the inversion level); signal_to_noise_map only in dedicated short histories (it forks on the sign of every pixel)",
+    "Imaging.w_tilde with a symbolic noise map or PSF (read only with concrete noise/PSF on the inversion level); signal_to_noise_map only in a dedicated k=1 case (it forks on the sign of every pixel; the k=2 case needed > 30 min for one task and was dropped)",
     "symbolic vertex positions of triangulation meshes (scipy.spatial.Voronoi / Delaunay need concrete vertices); Voronoi / Delaunay mappers, interpolated_array_from, magnification_*, max_pixel_* of MapperValued (argmax / argsort of symbolic values fork on every comparison); positive-only solver (use_positive_only_solver=False), check_reconstruction=False",
     "data_with_complex_gaussian_noise_added (complex arithmetic on the RNG draws) - its seeding goes through gaussian_noise_via_shape_and_sigma_from, which is covered",
     "bit-exact determinism of compiled / BLAS routines; float64 rounding (exact real arithmetic; every sat verdict replayed in float64)",
@@ -1748,8 +1748,6 @@ def cases(tier):
     out.append(("case_hist_imaging", {"mask_id": "4x4_inner", "k": 1, "snr": True, "op0": "x.signal_to_noise_map"}))
     for sn in (0, 1):
         out.append(("case_hist_imaging", {"mask_id": "4x4_inner", "k": 2, "snv": True, "sn": sn, "op0": "d=u.apply_noise_scaling(m,signal_to_noise_value)"}))
-    if not q:
-        out.append(("case_hist_imaging", {"mask_id": "4x4_inner", "k": 2, "snr": True, "op0": "d=x.apply_mask(m2)"}))
     return out
 
 
